@@ -16,6 +16,7 @@
 #include <boost/integer/integer_mask.hpp>
 
 #include <cstdint>
+#include <cstring>
 #include <limits>
 #include <type_traits>
 
@@ -452,6 +453,22 @@ protected:
     }
 #endif
 
+    // Access limited to the leading \p size bytes of the bit field. A channel addressed by a
+    // run-time bit offset need not extend to the last byte of the bit field, and the bytes
+    // after the channel may lie past the end of the pixel buffer (last pixels of a
+    // bit-aligned image), so they must be neither read nor written.
+    auto get_data(std::size_t size) const -> bitfield_t
+    {
+        bitfield_t ret = bitfield_t();
+        std::memcpy(&ret, _data_ptr, size < sizeof(bitfield_t) ? size : sizeof(bitfield_t));
+        return ret;
+    }
+
+    void set_data(bitfield_t const& val, std::size_t size) const
+    {
+        std::memcpy(_data_ptr, &val, size < sizeof(bitfield_t) ? size : sizeof(bitfield_t));
+    }
+
 private:
     void set(integer_t value) const {     // can this be done faster??
         this->derived().set_unsafe(((value % num_values) + num_values) % num_values);
@@ -662,8 +679,12 @@ public:
     auto get() const -> integer_t
     {
         const BitField channel_mask = static_cast< integer_t >( parent_t::max_val ) <<_first_bit;
-        return static_cast< integer_t >(( this->get_data()&channel_mask ) >> _first_bit );
+        return static_cast< integer_t >(( this->get_data(byte_span())&channel_mask ) >> _first_bit );
     }
+
+private:
+    // number of bytes, counted from the data pointer, that hold bits of this channel
+    auto byte_span() const -> std::size_t { return (_first_bit + NumBits + 7) / 8; }
 };
 
 /// \brief Models a mutable subbyte channel reference whose bit offset is a runtime parameter. Models ChannelConcept
@@ -708,13 +729,17 @@ public:
     auto get() const -> integer_t
     {
         BitField const channel_mask = static_cast< integer_t >( parent_t::max_val ) << _first_bit;
-        return static_cast< integer_t >(( this->get_data()&channel_mask ) >> _first_bit );
+        return static_cast< integer_t >(( this->get_data(byte_span())&channel_mask ) >> _first_bit );
     }
 
     void set_unsafe(integer_t value) const {
         const BitField channel_mask = static_cast< integer_t >( parent_t::max_val ) << _first_bit;
-        this->set_data((this->get_data() & ~channel_mask) | value<<_first_bit);
+        this->set_data((this->get_data(byte_span()) & ~channel_mask) | value<<_first_bit, byte_span());
     }
+
+private:
+    // number of bytes, counted from the data pointer, that hold bits of this channel
+    auto byte_span() const -> std::size_t { return (_first_bit + NumBits + 7) / 8; }
 };
 } }  // namespace boost::gil
 
